@@ -119,44 +119,91 @@ Proof. exact doc_toml_ok. Qed.
 Print Assumptions C07_toml_document.
 
 (* ---- toml::Value::try_from / toml::Table::try_from, read back by try_into ----
-   The full statement
-     forall ty v out, has_type v ty -> tv_ser ty v = Ok out -> exists v', tv_de ty out = Ok v' /\ sval_eq v v'
-   is FALSE of the code (known finding C07-tryfrom-nested-none-dropped): SerializeMap::serialize_value
-   swallows any UnsupportedNone coming out of a field's value, so
-   V { v: Some(vec![Some(1), None]) } becomes the empty table and reads back as V { v: None }. *)
-Theorem C07_tryfrom_roundtrip_refuted :
-  exists ty v out,
-    has_type v ty /\ tv_ser ty v = Ok out /\ tv_ser_table ty v = Ok out
-    /\ ser_value ty v = Err EUnsupportedNone
-    /\ exists v', tv_de ty out = Ok v' /\ ~ sval_eq v v'.
-Proof. exact tryfrom_refuted. Qed.
-Print Assumptions C07_tryfrom_roundtrip_refuted.
+   (The defect that made the full statement false, C07-tryfrom-nested-none-dropped, is repaired in /repo:
+   SerializeMap::serialize_value swallowed ANY UnsupportedNone coming out of a field's value; now only a None handed
+   directly to the field leaves the entry out, as in toml_edit.  The former witnesses are kept below.)
+   doc_keys ty: no map key type is `char` or `Option<_>` (through newtypes) — keys that SerializeMap::serialize_key
+   accepts (anything that serializes to a Value::String) although no document serializer does; has_type knows
+   nothing about which of those keys collide. *)
 
-Theorem C07_tryfrom_undecodable_refuted :
-  exists ty v out,
-    has_type v ty /\ tv_ser ty v = Ok out /\ ser_value ty v = Err EUnsupportedNone /\ tv_de ty out = Err EDe.
-Proof. exact tryfrom_refuted_undecodable. Qed.
-Print Assumptions C07_tryfrom_undecodable_refuted.
+(* whatever Value::try_from / Table::try_from accept, try_into gives back *)
+Theorem C07_tryfrom_roundtrip : forall ty v out,
+  has_type v ty -> doc_keys ty = true -> tv_ser ty v = Ok out -> exists v', tv_de ty out = Ok v' /\ sval_eq v v'.
+Proof. exact tryfrom_roundtrip. Qed.
+Print Assumptions C07_tryfrom_roundtrip.
 
-(* the part that holds: a value without any documented unsupported shape is accepted and reads back
-   (what is missing for the full statement is exactly the finding above) *)
-Theorem C07_tryfrom_roundtrip_partial : forall ty v,
+Theorem C07_table_tryfrom_roundtrip : forall ty v out,
+  has_type v ty -> doc_keys ty = true -> tv_ser_table ty v = Ok out -> exists v', tv_de ty out = Ok v' /\ sval_eq v v'.
+Proof. exact table_tryfrom_roundtrip_full. Qed.
+Print Assumptions C07_table_tryfrom_roundtrip.
+
+(* Value::try_from accepts a value exactly when it has no documented unsupported shape — the verdict of the text
+   routes (C07_ok_iff_supported): nothing is silently dropped; Table::try_from accepts no more than that *)
+Theorem C07_tryfrom_ok_iff_supported : forall ty v,
+  has_type v ty -> doc_keys ty = true -> ((exists out, tv_ser ty v = Ok out) <-> supported ty v).
+Proof. exact tv_ok_iff_supported. Qed.
+Print Assumptions C07_tryfrom_ok_iff_supported.
+
+Theorem C07_table_tryfrom_supported : forall ty v out,
+  has_type v ty -> doc_keys ty = true -> tv_ser_table ty v = Ok out -> supported ty v.
+Proof. exact table_tryfrom_supported. Qed.
+Print Assumptions C07_table_tryfrom_supported.
+
+(* for every type (char / Option keys included): a value without any documented unsupported shape is accepted and
+   reads back *)
+Theorem C07_tryfrom_supported_roundtrip : forall ty v,
   has_type v ty -> supported ty v ->
   exists out, tv_ser ty v = Ok out /\ exists v', tv_de ty out = Ok v' /\ sval_eq v v'.
 Proof. exact tryfrom_supported. Qed.
-Print Assumptions C07_tryfrom_roundtrip_partial.
+Print Assumptions C07_tryfrom_supported_roundtrip.
 
-Theorem C07_table_tryfrom_roundtrip_partial : forall ty v out,
+Theorem C07_table_tryfrom_supported_roundtrip : forall ty v out,
   has_type v ty -> supported ty v -> tv_ser_table ty v = Ok out ->
   exists v', tv_de ty out = Ok v' /\ sval_eq v v'.
 Proof. exact table_tryfrom_roundtrip. Qed.
-Print Assumptions C07_table_tryfrom_roundtrip_partial.
+Print Assumptions C07_table_tryfrom_supported_roundtrip.
 
 (* a failure of Value::try_from names some documented unsupported shape *)
 Theorem C07_tryfrom_errors : forall ty v e,
   has_type v ty -> tv_ser ty v = Err e -> exists e', unsupported CElem ty v e'.
 Proof. intros ty v e. exact (tv_errors ty v e). Qed.
 Print Assumptions C07_tryfrom_errors.
+
+(* the former witnesses of C07-tryfrom-nested-none-dropped: V { v: Some(vec![Some(1), None]) } and
+   V { a: 1, v: vec![None] } are refused by both entry points with the error of every other route *)
+Theorem C07_tryfrom_nested_none_refused :
+  has_type s3_val s3_ty /\ has_type s3b_val s3b_ty
+  /\ tv_ser s3_ty s3_val = Err EUnsupportedNone /\ tv_ser_table s3_ty s3_val = Err EUnsupportedNone
+  /\ ser_value s3_ty s3_val = Err EUnsupportedNone
+  /\ tv_ser s3b_ty s3b_val = Err EUnsupportedNone /\ tv_ser_table s3b_ty s3b_val = Err EUnsupportedNone
+  /\ ser_value s3b_ty s3b_val = Err EUnsupportedNone.
+Proof. exact tryfrom_nested_none_refused. Qed.
+Print Assumptions C07_tryfrom_nested_none_refused.
+
+(* struct N { a: Option<Option<i32>>, b: W(Option<i32>), c: (Option<i32>, i32), d: E, e: Option<i32>,
+              m: BTreeMap<String, Vec<Option<i32>>> }     enum E { P(Option<i32>), Q { x: Option<i32> } }
+   a None handed directly to a field (a, e, Q.x) leaves the entry out, on every route alike ... *)
+Theorem C07_tryfrom_direct_none_skipped :
+  let v := nn_val SNone (SNewtype nn_1) nn_c (SVariant 1 (SRec [SNone])) SNone (nn_m nn_1) in
+  has_type v nn_ty
+  /\ tv_ser nn_ty v = Ok (VTab [(str "b", VInt 1); (str "c", VArr [VInt 1; VInt 2]); (str "d", VTab [(str "Q", VTab [])]);
+                                (str "m", VTab [(str "k", VArr [VInt 1])])])
+  /\ ser_value nn_ty v = tv_ser nn_ty v /\ tv_ser_table nn_ty v = tv_ser nn_ty v.
+Proof. exact tryfrom_direct_none_skipped. Qed.
+Print Assumptions C07_tryfrom_direct_none_skipped.
+
+(* ... and a None anywhere deeper — Some(None), a newtype around None, None in a tuple, in a newtype variant's
+   payload, in a sequence inside a map — is an error, on every route alike *)
+Theorem C07_tryfrom_nested_none_shapes :
+  Forall (fun v => has_type v nn_ty /\ tv_ser nn_ty v = Err EUnsupportedNone /\ tv_ser_table nn_ty v = Err EUnsupportedNone
+                   /\ ser_value nn_ty v = Err EUnsupportedNone)
+    [nn_val (SSome SNone) (SNewtype nn_1) nn_c nn_d nn_1 (nn_m nn_1);
+     nn_val (SSome nn_1) (SNewtype SNone) nn_c nn_d nn_1 (nn_m nn_1);
+     nn_val (SSome nn_1) (SNewtype nn_1) (SSeq [SNone; SInt 2]) nn_d nn_1 (nn_m nn_1);
+     nn_val (SSome nn_1) (SNewtype nn_1) nn_c (SVariant 0 SNone) nn_1 (nn_m nn_1);
+     nn_val (SSome nn_1) (SNewtype nn_1) nn_c nn_d nn_1 (nn_m SNone)].
+Proof. exact tryfrom_nested_none_shapes. Qed.
+Print Assumptions C07_tryfrom_nested_none_shapes.
 
 (* ---- non-vacuity ---- *)
 (* struct Cfg { m: BTreeMap<String, Vec<En>>, o: Option<Point>, t: En, d: Datetime, w: Wrap(u8), c: char, x: f32 }
@@ -177,8 +224,8 @@ Definition ex_val : sval :=
         SVariant 2 (SSeq [SBool true; SStr (str "x y")]); SDt ex_dt; SNewtype (SInt 255);
         SChar 233; SF32 1036831949].
 
-Example C07_ex_typed : has_type ex_val ex_ty.
-Proof. vm_compute. reflexivity. Qed.
+Example C07_ex_typed : has_type ex_val ex_ty /\ doc_keys ex_ty = true /\ doc_keys nn_ty = true.
+Proof. repeat split; vm_compute; reflexivity. Qed.
 
 Example C07_ex_ser :
   ser_edit_root ex_ty ex_val =
@@ -229,4 +276,14 @@ Example C07_ex_root :
   ser_edit_root (TSeq TBool) (SSeq []) = Err (EUnsupportedType None)
   /\ ser_toml_root ex_en (SVariant 3 (SRec [SNone; SInt 7])) = Err (EUnsupportedType (Some (str "En")))
   /\ ser_edit_root ex_en (SVariant 3 (SRec [SNone; SInt 7])) = Ok (VTab [(str "S", VTab [(str "b", VInt 7)])]).
+Proof. repeat split; vm_compute; reflexivity. Qed.
+
+(* a Datetime at the root of a document is refused as a non-table by toml::to_string as by toml_edit's (since the repair
+   of C06-root-datetime-printed-as-table; before, toml::to_string wrote the document `"$__toml_private_datetime" = ".."`);
+   Value::try_from yields the date-time *)
+Example C07_ex_root_datetime :
+  ser_toml_root (TDatetime KDatetime) (SDt ex_dt) = Err (EUnsupportedType None)
+  /\ ser_edit_root (TDatetime KDatetime) (SDt ex_dt) = Err (EUnsupportedType None)
+  /\ toml_root_shaped (TDatetime KDatetime) (SDt ex_dt) = false
+  /\ tv_ser (TDatetime KDatetime) (SDt ex_dt) = Ok (VDatetime ex_dt).
 Proof. repeat split; vm_compute; reflexivity. Qed.
